@@ -351,5 +351,43 @@ func propSpecs() map[string]*PropSpec {
 	cm(c06, "H_C06", 3, 2, "documents of <= 3 nodes, LF, full menus", "thorough")
 	cm(c06, "H_C06", 4, 0, "documents of <= 4 nodes, LF, reduced menus", "thorough")
 	add(c06)
+
+	fm := func(p *PropSpec, h string, a, b int64, bound, tier string) {
+		p.Jobs = append(p.Jobs, JobSpec{Pkg: pkgFmt, Harness: h, Params: []int64{a, b}, Bound: bound, Tier: tier})
+	}
+	// ---- C19
+	c19 := &PropSpec{ID: "C19", Level: "other", Assumptions: append([]string{"interleavings are not explored: the schedule quantifier is discharged by non-interference - if no call writes to anything that exists before it starts (other than properly synchronised sync.Once initialisation), concurrent calls cannot race and equal the sequential result; the engine establishes that premise for every input in the bound by making every pre-existing object read-only (vfreeze) and reporting any store into one", "races inside the Go runtime, in caller-supplied writers or FilterTag functions are outside the claim", "a frozen-write violation has no native counterpart and is reported from the engine's observation"}, commonAssumptions...), QuickSec: 200, ThoroughSec: 1500,
+		Explanation: "write-confinement premise of a non-interference argument, established by bounded symbolic execution: Parse the input, freeze the whole heap (tree, Source, reference map, renderer values, package-level tables), then Render in 12 configurations twice, Walk, Format twice; two Parse calls with all pre-existing state frozen; every store into a frozen object on any feasible path is a violation; repeatability of results asserted"}
+	for n := int64(1); n <= 3; n++ {
+		cm(c19, "H_C19", 0, n, fmt.Sprintf("Render x12 x2 + Walk on frozen trees of F(%d)", n), "quick")
+		fm(c19, "H_C19_format", n, 0, fmt.Sprintf("Format x2 on frozen trees of F(%d)", n), "quick")
+	}
+	cm(c19, "H_C19_parse", 1, 1, "Parse(in2), Parse(in1), Parse(in2) with frozen globals, |in1|=|in2|=1", "quick")
+	cm(c19, "H_C19_parse", 2, 1, "same, |in1|=2, |in2|=1", "quick")
+	cm(c19, "H_C19_parse", 1, 2, "same, |in1|=1, |in2|=2", "quick")
+	cm(c19, "H_C19_parse", 2, 2, "same, |in1|=|in2|=2", "thorough")
+	for _, i := range []int64{5, 6, 8, 10, 18, 22, 26, 29, 33, 40, 48} {
+		cm(c19, "H_C19", 1, i, fmt.Sprintf("Render/Walk on frozen trees of TL[%d]", i), "quick")
+	}
+	for _, i := range []int64{2, 9, 14, 15} {
+		cm(c19, "H_C19", 2, i, fmt.Sprintf("Render/Walk on frozen trees of attribute template %d", i), "quick")
+	}
+	cm(c19, "H_C19", 0, 4, "Render/Walk on frozen trees of F(4)", "thorough")
+	fm(c19, "H_C19_format", 4, 0, "Format on frozen trees of F(4)", "thorough")
+	add(c19)
+
+	// ---- C20
+	c20 := &PropSpec{ID: "C20", Level: "model_checking", Assumptions: append([]string{"canonical-style documents: the C06 generator restricted to the construct set fixed in DESIGN.md §C20 (no tabs/CRLF, '-' bullets, backtick fences, double-quoted titles, escaped punctuation from the formatter's escape set plus neutral punctuation)", "writer faults: the k-th Write/WriteString call fails, k a solver variable in 1..K; both io.Writer-only and io.StringWriter writers"}, commonAssumptions...), QuickSec: 200, ThoroughSec: 1700,
+		Explanation: "bounded symbolic execution of Parse+Format on F(n) with healthy and failing writers (error identity, no write after error, determinism, tree frozen), and of Format(Parse(d)) for every canonical document d within the node budget: rendered HTML preserved and a second Format reproduces the text byte for byte"}
+	for n := int64(1); n <= 3; n++ {
+		fm(c20, "H_C20_total", n, 6, fmt.Sprintf("F(%d), writer failing at call k in 1..6", n), "quick")
+	}
+	fm(c20, "H_C20_total", 4, 12, "F(4), writer failing at call k in 1..12", "thorough")
+	fm(c20, "H_C20_canon", 1, 0, "canonical documents of <= 1 node, reduced menus", "quick")
+	fm(c20, "H_C20_canon", 2, 0, "canonical documents of <= 2 nodes, reduced menus", "quick")
+	fm(c20, "H_C20_canon", 2, 2, "canonical documents of <= 2 nodes, full menus", "quick")
+	fm(c20, "H_C20_canon", 3, 0, "canonical documents of <= 3 nodes, reduced menus", "thorough")
+	fm(c20, "H_C20_canon", 3, 2, "canonical documents of <= 3 nodes, full menus", "thorough")
+	add(c20)
 	return m
 }
